@@ -6,7 +6,8 @@ RULE = ("connected multigraphs x divisors x random sequences of 3..10 calls over
 EXPLANATION = ("after every call full snapshots (degrees, cached total, identity of .graph, graph.to_dict(), adjacency, valences, total) of every object handed in are compared with the snapshot before: graphs never change, "
                "pure calls change nothing, the in-place family may only replace the caller's divisor by a linearly equivalent one (decided by the verified lin_equiv_q) of the same degree on the same graph object")
 TWO_STAGE = True
-PURE = ["lineq", "lineq_zero", "lap_apply", "arith", "legal", "superstable", "greedy", "gon_game", "gon_strategy", "lap_queries", "config_queries", "pcfg_legal", "pcfg_superstable", "pcfg_queries"]
+PURE = ["lineq", "lineq_zero", "lap_apply", "arith", "legal", "superstable", "greedy", "gon_game", "gon_strategy", "lap_queries", "config_queries", "pcfg_legal", "pcfg_superstable", "pcfg_queries", "dhar_queries"]
+# dhar_queries: read-only questions to a DharAlgorithm object, also about a vertex the graph does not contain
 MOVES = ["pcfg_lend", "pcfg_borrow", "pcfg_fire"]      # ordinary moves through a PERSISTENT configuration object: expected change is known
 PCFG = ["pcfg_legal", "pcfg_legal", "pcfg_superstable", "pcfg_superstable", "pcfg_queries", "superstable"] + MOVES
 INPLACE = ["ewd", "ewd_opt", "ewd_vis", "is_winnable", "q_reduction", "is_q_reduced", "rank", "rank_opt", "dhar_run", "ewd_other", "dhar_other"]
@@ -45,7 +46,8 @@ def impl(c):
     R.Pool = common.RaisingPool
     rng = random.Random(c["s"]); G = c["G"]; names = G["names"]; n = G["n"]
     g = common.build_impl_graph(G, rng); d = common.build_impl_divisor(G, c["D"], graph=g, rng=rng); e = common.build_impl_divisor(G, c["E"], graph=g, rng=rng)
-    def gsnap(): return (g.to_dict(), [[g.graph[Vertex(x)].get(Vertex(y), 0) for y in names] for x in names], [g.get_valence(x) for x in names], g.total_valence, sorted(v.name for v in g.vertices))
+    def gsnap(): return (g.to_dict(), [[g.graph[Vertex(x)].get(Vertex(y), 0) for y in names] for x in names], [g.get_valence(x) for x in names], g.total_valence, sorted(v.name for v in g.vertices),
+                         sorted(v.name for v in g.graph), sorted((v.name, w.name) for v in g.graph for w in g.graph[v]), sorted(v.name for v in g.vertex_total_valence))      # also the raw keys: no phantom rows or entries
     def dsnap(x): return (common.div_to_list(G, x), x.get_total_degree(), x.graph is g, sorted(v.name for v in x.degrees))
     steps = []; g0 = gsnap(); pcfg = CFConfig(d, names[c.get("q0", 0)]); q0 = c.get("q0", 0)
     for k, v, sc in c["calls"]:
@@ -70,6 +72,8 @@ def impl(c):
             elif k == "pcfg_lend": pcfg.lending_move(names[v])
             elif k == "pcfg_borrow": pcfg.borrowing_move(names[v])
             elif k == "pcfg_fire": pcfg.set_fire({names[x] for x in range(n) if x != q0 and (x + v) % 3 != 0})
+            elif k == "dhar_queries":
+                dq = DharAlgorithm(g, common.build_impl_divisor(G, c["D"], graph=g, rng=rng), names[v]); dq.outdegree_S(Vertex(names[(v + 1) % n]), {Vertex(names[v])}); dq.outdegree_S(Vertex("zz_unknown"), {Vertex(names[v])}); dq.outdegree_S(Vertex(names[v]), {Vertex("zz_unknown")})
             elif k == "ewd": EWD(g, d)
             elif k == "ewd_opt": EWD(g, d, optimized=True)
             elif k == "ewd_vis": EWD(g, d, visualize=True)
